@@ -77,6 +77,9 @@ Split3(line) ==
          ELSE <<Sub(line, 1, a - 1), Sub(line, a + 1, c - 1), Sub(line, c + 1, Len(line))>>
 
 (* ---------------- chunked transfer coding (RFC 7230 4.1) ---------------- *)
+RECURSIVE StripZeros(_)
+StripZeros(b) == IF Len(b) > 1 /\ b[1] = 48 THEN StripZeros(Sub(b, 2, Len(b))) ELSE b
+
 \* decode from pos: [ok (complete stream seen), bad (malformed), body, next (index after the stream), n (chunks), trailers]
 RECURSIVE Dechunk(_, _)
 Dechunk(b, pos) ==
@@ -88,7 +91,8 @@ Dechunk(b, pos) ==
              szb == Trim(Sub(b, pos, IF semi = 0 THEN e - 1 ELSE semi - 1))
          IN
          IF ~AllHex(szb) THEN [inc EXCEPT !.bad = TRUE]
-         ELSE LET n == HexVal(szb) IN
+         ELSE IF Len(StripZeros(szb)) > 7 THEN inc      \* 2^28 bytes or more: longer than any input here (and than TLC's integers)
+         ELSE LET n == HexVal(StripZeros(szb)) IN
               IF n = 0
               THEN LET t == HeaderLines(b, e + 2)
                    IN [ok |-> t.ok, bad |-> FALSE, body |-> <<>>, next |-> t.next, n |-> 0, trailers |-> t.lines]
